@@ -8,7 +8,7 @@ rel() {
   case "$1" in
     C01) echo "C01 C02 C05 C07" ;; C02) echo "C02 C13 C17" ;; C03) echo "C03 C09 C10 C02" ;; C04) echo "C04 C05 C17" ;;
     C05) echo "C05 C11 C14" ;; C06) echo "C06 C01" ;; C07) echo "C07 C05 C04" ;; C08) echo "C08 C01 C17" ;;
-    C09) echo "C09 C10 C14" ;; C10) echo "C10 C13" ;; C11) echo "C11 C01 C14" ;; C12) echo "C12 C14 C18" ;;
+    C09) echo "C09 C10 C14" ;; C10) echo "C10 C13" ;; C11) echo "C11 C01 C14 C15" ;; C12) echo "C12 C14 C18" ;;
     C13) echo "C13" ;; C14) echo "C14 C05" ;; C15) echo "C15" ;; C16) echo "C16 C13" ;; C17) echo "C17 C18" ;; C18) echo "C18 C17" ;;
   esac
 }
